@@ -94,7 +94,8 @@ def _env(ctx):
     H.freeze(DAY)
     quick = ctx.quick
     maxlen = 2 if quick else 3
-    prefixes = PREFIXES if not quick else [p for i, p in enumerate(PREFIXES) if i % 2 == ctx.seed % 2] + [PREFIXES[5]]
+    prefixes = PREFIXES if not quick else [p for i, p in enumerate(PREFIXES)
+                                           if i % 2 == ctx.seed % 2 or p[0].endswith("+zid")]
     seqs = [()]
     for n in range(1, maxlen + 1):
         seqs += list(it.product(TKEYS, repeat=n))
